@@ -8,6 +8,8 @@ CONSTANTS
   MakeModes <- OnlyFalse
   MaxFaults = 1
   AsBuiltD8 = FALSE
+  SigOnMake <- SigNever
+  Hoisted = FALSE
   GenMode = FALSE
   GenLen = 0
 INVARIANTS TypeOK
